@@ -186,6 +186,10 @@ class Indirect(Part):
             "attrs": st.sampled_from(["", ' class="c"', " id='i' title=\"t\""]),
             "mode": st.sampled_from(["text", "structure"]),
             "pre": st.sampled_from(["", "before ", "<b>x</b>"]),
+            # literal text of the fallback (a constant string: expression)
+            "fb": st.sampled_from(["<i>E</i>", "<i>E</i>",
+                                   "it's \"q\" & <i>", "Can't load",
+                                   " padded ", "a  b\tc", "é &amp; x"]),
         })
 
     def nontrivial(self, case):
@@ -197,11 +201,16 @@ class Indirect(Part):
     def oracle(self, case):
         from chameleon import PageTemplate
         cls = case["cls"]
-        fb = "string:<i>E</i>" if case["mode"] == "text" else \
-            "structure string:<i>E</i>"
-        oe = ' tal:on-error="%s"' % fb.replace("<", "&lt;")
-        exp_fb = "&lt;i&gt;E&lt;/i&gt;" if case["mode"] == "text" \
-            else "<i>E</i>"
+        import html
+        lit = case.get("fb", "<i>E</i>")
+        fb = "string:" + lit if case["mode"] == "text" else \
+            "structure string:" + lit
+        oe = ' tal:on-error="%s"' % fb.replace("&", "&amp;").replace(
+            "<", "&lt;").replace('"', "&quot;")
+        # (what tal:content with the same expression inserts: as text only
+        # the three markup characters are escaped)
+        exp_fb = html.escape(lit, quote=False) if case["mode"] == "text" \
+            else lit
         a = case["attrs"]
         pre = case["pre"]
         env = {}
